@@ -2,7 +2,7 @@
    Only theorem statements closed by `exact` (or a one-line combination), each followed by
    Print Assumptions; plus non-vacuity examples and the refutation witnesses of the findings. *)
 From Snax Require Import Base.Prelude Model.Tsl Model.C12Const Model.C12Casts Proofs.TslProofs
-  Proofs.C05DigitProofs Proofs.C05MainProofs Proofs.C05ExtraProofs Proofs.C12ConstProofs Proofs.C12CastsProofs Proofs.C12CoherenceProofs Proofs.C12NestedProofs Proofs.C12ComposeProofs Proofs.C12DenseProofs Proofs.C12LiftProofs.
+  Proofs.C05DigitProofs Proofs.C05MainProofs Proofs.C05ExtraProofs Proofs.C12ConstProofs Proofs.C12CastsProofs Proofs.C12CoherenceProofs Proofs.C12NestedProofs Proofs.C12ComposeProofs Proofs.C12DenseProofs Proofs.C12LiftProofs Proofs.C12WfProofs.
 
 (* (i) re-laid-out constants: for every static layout with positive bounds that satisfies the
    sortedness precondition (checked to follow from is_dense by the correspondence run), any contents
@@ -261,3 +261,31 @@ Example C12_realize_in_loop_applies :
   rz_list p 2%nat p = [ILoop 7 [IAlloc 2; ICopy 0 2; IOp 0 [(2, KInOut)]; ICopy 2 0]; IOp 9 [(0, KRet)]]%nat.
 Proof. exact realize_in_loop_applies. Qed.
 Print Assumptions C12_realize_in_loop_applies.
+
+(* (ii) the hypotheses of the lift and of the composition DERIVED from decidable checks of the model
+   (Model/C12Casts.v: iwf = every cast casts a root and is the recorded definition of its result; lokb = the
+   cast is followed by a Safe block, possibly inside loops, and nothing else mentions it; step_okb,
+   steps_okb), evaluated by the correspondence run on every generated program:
+   one step of the walker, and the whole pass realize_all, preserve every operation's observations and the
+   final contents of every buffer except the new allocations, for every assignment of trip counts.
+   Partial: the checks are sufficient, not necessary -- they reject chains of casts, two casts of one
+   source in one block (the copies of the later one name the source inside the earlier one's block), and
+   everything inside the finding classes F24-F26/F30; such programs stay correspondence/search-only. *)
+Theorem C12_step_ok_equiv :
+  forall q c, step_okb q c = true -> prog_equiv [c] q (rz_list q c q).
+Proof. exact step_ok_equiv. Qed.
+Print Assumptions C12_step_ok_equiv.
+
+Theorem C12_all_steps_equiv :
+  forall p, all_steps_okb p = true -> prog_equiv (rev (casts p)) p (realize_all p).
+Proof. exact all_steps_equiv. Qed.
+Print Assumptions C12_all_steps_equiv.
+
+Example C12_all_steps_applies :
+  let p := [ICast 2 0 1 0; ICast 3 1 1 0; IOp 0 [(2, KIn); (3, KOut)];
+            ILoop 7 [ICast 4 5 1 0; IOp 1 [(4, KInOut)]]; IOp 9 []]%nat in
+  all_steps_okb p = true /\
+  realize_all p = [IAlloc 2; IAlloc 3; ICopy 0 2; IOp 0 [(2, KIn); (3, KOut)]; ICopy 3 1;
+                   ILoop 7 [IAlloc 4; ICopy 5 4; IOp 1 [(4, KInOut)]; ICopy 4 5]; IOp 9 []]%nat.
+Proof. exact all_steps_applies. Qed.
+Print Assumptions C12_all_steps_applies.
